@@ -873,7 +873,30 @@ func (g *gen) root(depth int) *Node {
 			l, _ := g.list(sc, depth-1)
 			n = g.withDelim("@join", l, g.anyDelim())
 		case 7:
-			n = call("@in", g.scalar(sc, depth-1, tAny), g.constList())
+			if g.p(35, "inlistprobe") {
+				// the probed value is itself a list - a run of consecutive members of the set, a permuted run,
+				// a member followed by a stranger: a list is never an ELEMENT of the set
+				k := g.n(2, 9, "inset")
+				words := make([]*Node, k)
+				for i := range words {
+					words[i] = lit(g.pick(litWords, "inword"))
+				}
+				i := g.n(0, k-2, "inat")
+				probe := []*Node{words[i], words[i+1]}
+				switch g.n(0, 3, "inprobekind") {
+				case 1:
+					probe = []*Node{words[i+1], words[i]}
+				case 2:
+					probe = []*Node{words[i], lit("stranger")}
+				case 3:
+					if i+2 < k {
+						probe = append(probe, words[i+2])
+					}
+				}
+				n = call("@in", call("@", probe...), call(g.pick([]string{"@", "$"}, "arr"), words...))
+			} else {
+				n = call("@in", g.scalar(sc, depth-1, tAny), g.constList())
+			}
 		default:
 			n = g.scalar(sc, depth, g.pick([]string{tNum, tAscii, tAny}, "rootty"))
 		}
